@@ -71,7 +71,45 @@ def agree_class_value(model, impl):
         return None
     if pm[0] in ("OK", "VERSION", "COMP") and pm[1] != pi[1]:
         return "payload %r vs %r" % (pm[1], pi[1])
+    if pm[0] == "STDERR" and len(model) >= 3 and len(impl) >= 2:
+        # WHICH message the failed run reports (the evaluator's error selection) is modelled; its text is not:
+        # the library's text must fit the frame of the kind the model predicts
+        kind, payload, text = model[1], unhx(model[2]), unhx(impl[1])
+        if not kind_matches(kind, payload, text):
+            return "error message: the model reports %s(%r) but the text is %r" % (kind, payload[:60], text[:120])
     return None
+
+
+def kind_matches(kind, payload, text):
+    """kind: model message kind; payload: the bytes the model attaches (metavariable / user text ...); text: stderr."""
+    # the text is wrapped at the terminal width: compare modulo white space
+    t = b" ".join(text.split())
+    payload = b" ".join(payload.split())
+    if kind in ("ParseSome", "ParseFail", "PureFailed"):
+        return t == payload
+    if kind == "NoEnv":
+        return t == b"environment variable `" + payload + b"` is not set"
+    if kind == "StrictPos":
+        return t.startswith(b"expected `") and t.endswith(b" to be on the right side of `--`")
+    if kind == "NonStrictPos":
+        return t.startswith(b"expected `") and t.endswith(b" to be on the left side of `--`")
+    if kind == "ParseFailed":
+        # (for a value that is not UTF-8 the library prefixes the lossy rendering of the value, the model does not)
+        return t.startswith(b"couldn't parse") and t.endswith(payload)
+    if kind == "GuardFailed":
+        return t.endswith(payload) and (t.startswith(b"check failed: ") or b"`: " in t)
+    if kind == "NoArgument":
+        return b" requires an argument `" in t
+    if kind == "Ambiguity":
+        return b" as both an option and an option-argument" in t
+    suggestion = t.startswith(b"no such ") or b" is not valid in this context, did you mean to pass it to command " in t
+    if kind == "Unconsumed":
+        return (t.endswith(b" is not expected in this context") or b" cannot be used at the same time as " in t
+                or t.endswith(b" cannot be used multiple times in this context") or suggestion)
+    if kind == "Missing":
+        # summarize_missing: `expected ..`, the hidden-name text, or a typo suggestion for the first leftover item
+        return t.startswith(b"expected ") or t.startswith(b"parser requires an extra flag, argument or parameter") or suggestion
+    return True
 
 
 def stderr_text(impl):
